@@ -16,7 +16,7 @@ META = {
             "document was forgotten; M3 an unappliable edit forgets the document and is not applied; M4 every request route except "
             "the lifecycle ones goes through request_snap, whose task body is with_catch_unwind and which answers from one await; M5 no "
             "handler re-acquires a lock it holds or waits for the analysis host while holding the document store (shared with C16/W1). "
-            "One obligation per site. Verifier-style: a new unjustified site is reported. M7 a self-recursive function reachable from the handlers is cut by a visited set that is asked with the key it is filled with. M8 = C13/D8; the response future of a request is an entry of M1. M12 every disk read of the server library is length-limited (the reviewed `Text too long` expect). M11 = C13/D2 (each change of a notification is converted with the line map of the text after the previous one: else a valid later change is applied somewhere else). M10 lower_vfs deals a file to a root only behind a prefix test (the invariant the reviewed strip_prefix(..).expect(..) of module_name relies on). M9 = C10/Q9 (a request that walks 2^depth steps keeps its snapshot and the next edit blocks the main loop for ever).",
+            "One obligation per site. Verifier-style: a new unjustified site is reported. M7 a self-recursive function reachable from the handlers is cut by a visited set that is asked with the key it is filled with. M8 = C13/D8; the response future of a request is an entry of M1. M12 every disk read of the server library is length-limited (the reviewed `Text too long` expect). M11 = C13/D2 (each change of a notification is converted with the line map of the text after the previous one: else a valid later change is applied somewhere else). M10 lower_vfs deals a file to a root only behind a prefix test (the invariant the reviewed strip_prefix(..).expect(..) of module_name relies on). M9 = C10/Q9 (a request that walks 2^depth steps keeps its snapshot and the next edit blocks the main loop for ever). M14/M15 = C10 Q14/Q15 (the same, for the two exponential walks of the inferencer).",
     "explanation": "The main loop has no CatchUnwindLayer (lib.rs: TODO), so any panic in a notification/event handler ends the "
                    "process. Engine G lists every panic-capable construct reachable from those handlers through crates glas and ide "
                    "(closures handed to spawn functions run elsewhere and are cut), and demands a justification for each. The "
@@ -230,6 +230,8 @@ def run(F, res, tier):
     # a request that never ends keeps its snapshot: the next edit blocks the main loop in request_cancellation() for ever
     from rules import c10 as _c10q
     _c10q.no_double_descent(F, res, rule="M9")
+    _c10q.inference_is_memoised(F, res, rule="M14")
+    _c10q.same_class_is_a_no_op(F, res, rule="M15")
     files_lie_below_their_root(F, res)
     disk_reads_are_bounded(F, res)
     client_named_paths_are_read_as_regular_files(F, res)
